@@ -63,6 +63,15 @@ func c01Diff(path string, x, y any, out *[]string) {
 	}
 	xn := !xv.IsValid() || c01ItemNil(xv.Interface())
 	yn := !yv.IsValid() || c01ItemNil(yv.Interface())
+	// unset/empty properties are absent: language values none of which carries a text are empty
+	if !xn && xv.Type() == tNlv {
+		xn = true
+		for _, e := range xv.Interface().(ap.NaturalLanguageValues) {
+			if len(e.Value) > 0 {
+				xn = false
+			}
+		}
+	}
 	if xn && yn {
 		return
 	}
@@ -192,7 +201,7 @@ func runC01(seed int64, n int, tier string, outDir string) (*Report, error) {
 		// a non-ASCII byte is judged natively only - counted, not sent to Coq)
 		if c01OutsideURLGrammar(it) {
 			rep.Count("dec-case-skipped:iri-outside-url-grammar")
-		} else if len(out) > 0 && len(out) < 2500 && (label != "random" || decCases < decBudget) && (label == "random" || idx%7 == 0) {
+		} else if len(out) > 0 && len(out) < 2500 && (label != "random" || decCases < decBudget) && (label == "random" || idx%7 == 0 || strings.HasPrefix(label, "directed")) {
 			cw.Add("("+hx(out)+", Ok "+CoqItem(back)+")", fmt.Sprintf("%s idx=%d", label, idx))
 			decCases++
 		}
@@ -220,6 +229,15 @@ func runC01(seed int64, n int, tier string, outDir string) (*Report, error) {
 			}
 		}
 	}
+	// directed probes: values the leaf theorems of Props/C01.v single out (ends of months, leap days, the first and
+	// last year time.RFC3339 can write, the ends of the duration writer's range) and the witnesses of the two
+	// defects found while proving the round trip (an object with only a negative duration; a source whose content
+	// writes nothing)
+	for _, it := range c01Directed() {
+		roundtrip(it, "directed "+structName(it), idx)
+		rep.Count("directed")
+		idx++
+	}
 	for i := 0; i < n; i++ {
 		it := g.Struct(structTypes[i%len(structTypes)], c01Opts(g))
 		roundtrip(it, "random", idx)
@@ -233,6 +251,32 @@ func runC01(seed int64, n int, tier string, outDir string) (*Report, error) {
 		return nil, err
 	}
 	return rep, nil
+}
+
+func c01Directed() []ap.Item {
+	id := ap.IRI("https://example.com/o")
+	var out []ap.Item
+	for _, tm := range []time.Time{
+		time.Date(0, 1, 1, 0, 0, 0, 0, time.UTC), time.Date(0, 2, 29, 12, 0, 0, 0, time.UTC), time.Date(0, 3, 1, 0, 0, 0, 0, time.UTC),
+		time.Date(1, 1, 1, 0, 0, 1, 0, time.UTC), time.Date(1900, 2, 28, 23, 59, 59, 0, time.UTC), time.Date(2000, 2, 29, 0, 0, 0, 0, time.UTC),
+		time.Date(2023, 1, 31, 1, 2, 3, 0, time.UTC), time.Date(2023, 4, 30, 4, 5, 6, 0, time.UTC), time.Date(2024, 2, 29, 23, 59, 59, 0, time.UTC),
+		time.Date(2024, 12, 31, 23, 59, 59, 0, time.FixedZone("", -5*3600)), time.Date(2399, 12, 31, 0, 0, 0, 0, time.UTC),
+		time.Date(2400, 3, 1, 0, 0, 0, 0, time.UTC), time.Date(9999, 12, 31, 23, 59, 59, 0, time.UTC),
+	} {
+		out = append(out, &ap.Object{ID: id, Type: ap.NoteType, Published: tm})
+	}
+	for _, d := range []time.Duration{time.Second, -time.Second, 59 * time.Second, time.Minute, time.Hour, -(23*time.Hour + 59*time.Minute + 59*time.Second), 23*time.Hour + 59*time.Minute + 59*time.Second} {
+		out = append(out, &ap.Object{ID: id, Type: ap.NoteType, Duration: d})
+	}
+	// an object (top level and embedded) whose only property is a negative duration
+	out = append(out, &ap.Object{Duration: -5 * time.Second})
+	out = append(out, &ap.Object{ID: id, Type: ap.NoteType, Attachment: &ap.Object{Duration: -5 * time.Second}})
+	// a source whose content writes nothing keeps its media type
+	out = append(out, &ap.Object{ID: id, Type: ap.NoteType, Source: ap.Source{MediaType: "text/x", Content: ap.NaturalLanguageValues{{Ref: "", Value: ap.Content("")}}}})
+	// numbers at the ends of the integer reader's fast path
+	out = append(out, &ap.Place{ID: id, Type: ap.PlaceType, Radius: 999999999999999999}, &ap.Place{ID: id, Type: ap.PlaceType, Radius: -999999999999999999})
+	out = append(out, &ap.OrderedCollectionPage{ID: id, Type: ap.OrderedCollectionPageType, TotalItems: 999999999999999999, StartIndex: 1})
+	return out
 }
 
 func trunc(s string, n int) string {
